@@ -1378,7 +1378,10 @@ def mean_from_sum_count(sum_: pd.Series, count: pd.Series):
 
     """
     if sum_.dtype.kind in "mM":
-        return (sum_.astype("int64") // count).astype(sum_.dtype)
+        # whole-number arithmetic throughout: one empty group (count 0) must not turn the
+        # division into a float one, which rounds present-day timestamps to 256 ns
+        mean = sum_.astype("int64") // count.where(count > 0, 1)
+        return mean.astype(sum_.dtype).where(count > 0)
     else:
         return sum_ / count
 
